@@ -586,18 +586,18 @@ Theorem start_run_store p times now st :
 Proof.
   intros n Hwf H64. unfold start_run.
   destruct (start_call p times now st) as [w0|[init st1]] eqn:SC.
-  - destruct (start_call_inl _ _ _ _ _ SC) as [Hw0|[Hw0|Hw0]]; subst w0; cbn; repeat split; auto; discriminate.
+  - destruct (start_call_inl _ _ _ _ _ SC) as [Hw0|[Hw0|Hw0]]; subst w0; cbn; (split; [exact Hwf|split; [auto|discriminate]]).
   - destruct (start_call_wf p times now st init st1 Hwf H64 SC) as (Hwf1 & Ht1 & Hst1).
     assert (Hv : params_valid p = true).
     { unfold start_call in SC. destruct (params_valid p); [reflexivity|discriminate]. }
     pose proof (subjective_tail_spec p times st1 Hwf1 H64 Hv) as R. fold n in R.
     set (r := subjective_tail p times st1) in *. clearbody r.
     destruct R as [|req w' Hw'|req st' W1 W2 W3 W4]; cbn [o_out o_req o_store].
-    + repeat split; auto; [lia|discriminate].
-    + repeat split; auto; [lia|]. intros ->. destruct Hw' as [|[|]]; discriminate.
+    + split; [exact Hwf1|split; [lia|discriminate]].
+    + split; [exact Hwf1|split; [lia|]]. intros ->. destruct Hw' as [|[|]]; discriminate.
     + destruct init.
-      * destruct (wf_adopt times st' W1 W2) as [A1 A2]. repeat split; [exact A1|rewrite A2; auto|discriminate].
-      * destruct (wf_sync_up st' n n W1 W2 ltac:(lia)) as [A1 A2]. fold n. repeat split; [exact A1|rewrite A2; auto|discriminate].
+      * destruct (wf_adopt times st' W1 W2) as [A1 A2]. split; [exact A1|split; [rewrite A2; auto|discriminate]].
+      * destruct (wf_sync_up st' n n W1 W2 ltac:(lia)) as [A1 A2]. fold n. split; [exact A1|split; [rewrite A2; auto|discriminate]].
 Qed.
 
 
@@ -605,8 +605,9 @@ Qed.
 Lemma move_tail_out st old x : let '(o, _, _) := move_tail st old x in o = OOk \/ o = OErr.
 Proof.
   unfold move_tail. destruct old as [t|]; [|auto].
-  destruct (t <? x); [destruct (st_delete_range st t x); auto|].
-  destruct (x <? t); auto.
+  destruct (t <? x).
+  - destruct (_ <? x); [destruct (st_delete_range st t _); auto|destruct (st_delete_range st t x); auto].
+  - destruct (x <? t); auto.
 Qed.
 
 Lemma fetch_tail_out times st old x req :
@@ -734,17 +735,15 @@ Qed.
 Lemma target_step_full st n x req :
   wf st n -> 1 <= x <= n -> n + 2 < two64 ->
   let r := moved req (move_tail (st_append st x) (if st_empty st then None else Some (s_tail st)) x) in
-  (snd r = WDone \/ snd r = WDelete) /\ (snd r = WDelete -> s_head st + 1 < x) /\
-  o_req (fst r) = req /\ (snd r = WDone -> s_tail st <> 0 -> x <= s_head st + 1).
+  snd r = WDone /\ o_req (fst r) = req.
 Proof.
   intros Hwf Hx H64. destruct (st_empty st) eqn:E.
-  - rewrite (wf_empty st n Hwf E). rewrite st_append_empty. cbn.
-    repeat split; auto; try discriminate. intros _ C; contradiction.
+  - rewrite (wf_empty st n Hwf E). rewrite st_append_empty. cbn. auto.
   - destruct (wf_nonempty st n Hwf E) as (Hst & Ht & Hh).
     pose proof (retarget_spec (s_tail st) (s_head st) x n Ht Hh Hx H64) as R.
     rewrite <- Hst in R.
     set (r := move_tail (st_append st x) (Some (s_tail st)) x) in *. clearbody r.
-    destruct R as [st' W1 W2 W3 W3'|W1]; cbn; repeat split; auto; try discriminate; lia.
+    destruct R as [st' W1 W2 W3]; cbn; auto.
 Qed.
 
 (** what subjectiveTail does once the tail height x is known to be a height of the chain *)
@@ -752,9 +751,7 @@ Lemma subjective_tail_window_x p times st x :
   wf st (net_head times) -> net_head times + 2 < two64 ->
   p_hash p = HNone -> tail_calc p times st = TVal x -> 1 <= x <= net_head times ->
   let r := subjective_tail p times st in
-  (snd r = WDone \/ snd r = WDelete) /\ (snd r = WDelete -> s_head st + 1 < x) /\
-  Forall (fun h => 1 <= h <= net_head times) (o_req (fst r)) /\
-  (snd r = WDone -> s_tail st <> 0 -> x <= s_head st + 1).
+  snd r = WDone /\ Forall (fun h => 1 <= h <= net_head times) (o_req (fst r)).
 Proof.
   intros Hwf H64 Hh TC Hx. unfold tail_calc in TC. unfold subjective_tail. rewrite Hh. rewrite TC.
   destruct (N.eqb_spec x 0); [lia|]. rewrite Bool.andb_false_r.
@@ -763,23 +760,25 @@ Proof.
     replace (move_tail st (if st_empty st then None else Some (s_tail st)) x)
       with (move_tail (st_append st x) (if st_empty st then None else Some (s_tail st)) x)
       by (erewrite st_append_has; eauto).
-    destruct (target_step_full st (net_head times) x [] Hwf Hx H64) as (A & C & D & F).
-    repeat split; auto. rewrite D. constructor.
+    destruct (target_step_full st (net_head times) x [] Hwf Hx H64) as (A & D).
+    split; auto. rewrite D. constructor.
   - unfold fetch_tail. assert (Ic : in_chain times x = true) by (apply in_chain_spec; lia).
     rewrite Ic.
-    destruct (target_step_full st (net_head times) x [x] Hwf Hx H64) as (A & C & D & F).
-    repeat split; auto. rewrite D. constructor; [lia|constructor].
+    destruct (target_step_full st (net_head times) x [x] Hwf Hx H64) as (A & D).
+    split; auto. rewrite D. constructor; [lia|constructor].
 Qed.
 
 (** * Step level, window mode *)
 
 (** C16 "never wraps", full strength at the level of the tail computation: in
     window mode the computed tail height is a height of the chain, at or above
-    the old tail -- for every parameter set, every spacing of header times *)
+    the old tail and at most one above the store's head -- for every parameter
+    set, every spacing of header times *)
 Lemma tail_calc_window p times st1 :
   let n := net_head times in
   wf st1 n -> n + 2 < two64 -> 1 <= n -> p_from p = 0 ->
-  exists x, tail_calc p times st1 = TVal x /\ 1 <= x <= n /\ (s_tail st1 <> 0 -> s_tail st1 <= x).
+  exists x, tail_calc p times st1 = TVal x /\ 1 <= x <= n /\
+    (s_tail st1 <> 0 -> s_tail st1 <= x <= s_head st1 + 1).
 Proof.
   intros n Hwf1 H64 Hn Hf. unfold tail_calc. fold n. destruct (st_empty st1) eqn:E1.
   - unfold tail_height. rewrite Hf. cbn [N.ltb N.compare].
@@ -793,6 +792,7 @@ Proof.
                 (match tm times n with Some t => t | None => 0%Z end) (st_height st1)
                 (fun h0 => if st_has st1 h0 then tm times h0 else None)) as [x (Hx & Hlo & Hhi)].
     + unfold two64 in *. lia.
+    + unfold two64 in *. lia.
     + lia.
     + intros h0 Hh0. rewrite Hsh in Hh0. cbn beta.
       assert (Hs : st_has st1 h0 = true) by (apply (st_has_wf st1 n h0 Hwf1); lia). rewrite Hs.
@@ -800,17 +800,16 @@ Proof.
     + exists x. split; [exact Hx|]. split; [lia|]. intros; lia.
 Qed.
 
-(** C16 "never wraps" and the exact shape of "never wedges" at the level of
-    Start, window mode, ANY parameters and ANY spacing of header times: every
-    height asked from the network is a height of the chain; Start fails only
-    because the network head is itself expired, or because the new tail lies
-    above the store's head + 1 (WDelete, open finding F9a) *)
+(** C16 "never wraps" and "never wedges" at the level of Start, window mode, FULL:
+    any parameters, any spacing of header times: every height asked from the
+    network is a height of the chain, and Start fails only when the network's
+    head is itself expired *)
 Theorem start_window_any p times now st :
   let n := net_head times in
   wf st n -> n + 2 < two64 -> 1 <= n ->
   p_hash p = HNone -> p_from p = 0 ->
   let '(o, w) := start_run p times now st in
-  (w = WDone \/ w = WNoCall \/ w = WInvalid \/ w = WInitExpired \/ w = WDelete) /\
+  (w = WDone \/ w = WNoCall \/ w = WInvalid \/ w = WInitExpired) /\
   Forall (fun h => 1 <= h <= n) (o_req o) /\
   (o_out o = OOk <-> (w = WDone \/ w = WNoCall)).
 Proof.
@@ -821,40 +820,25 @@ Proof.
       split; intros HH; try discriminate; auto; destruct HH; discriminate. }
   destruct (start_call_wf p times now st init st1 Hwf H64 SC) as (Hwf1 & Ht1 & Hst1). fold n in Hwf1.
   destruct (tail_calc_window p times st1 Hwf1 H64 Hn Hf) as (x & TC & Hx & Hge).
-  destruct (subjective_tail_window_x p times st1 x Hwf1 H64 Hh TC Hx) as (A & C & D & F).
+  destruct (subjective_tail_window_x p times st1 x Hwf1 H64 Hh TC Hx) as (A & D).
   assert (Hv : params_valid p = true).
   { unfold start_call in SC. destruct (params_valid p); [reflexivity|discriminate]. }
   pose proof (subjective_tail_spec p times st1 Hwf1 H64 Hv) as R. fold n in R.
   set (r := subjective_tail p times st1) in *. clearbody r.
-  destruct R as [|req w' Hw'|req st' W1 W2 W3 W4|req x' W1 W2 W3];
-    cbn [fst snd o_out o_req o_store] in *.
-  - destruct A as [A|A]; discriminate.
-  - destruct Hw' as [Hw1|[Hw1|Hw1]]; subst w'; destruct A as [A|A]; discriminate.
+  destruct R as [|req w' Hw'|req st' W1 W2 W3 W4]; cbn [fst snd o_out o_req o_store] in *.
+  - discriminate.
+  - destruct Hw' as [Hw1|[Hw1|Hw1]]; subst w'; discriminate.
   - split; [auto|]. split; [exact D|]. split; auto.
-  - split; [auto 6|]. split; [exact D|]. split; [discriminate|intros [|]; discriminate].
 Qed.
 
 (** in window mode a header that Start removes lies below the computed tail height *)
-Lemma subjective_tail_window_req p times st x :
-  wf st (net_head times) -> net_head times + 2 < two64 ->
-  p_hash p = HNone -> tail_calc p times st = TVal x -> 1 <= x <= net_head times ->
-  o_req (fst (subjective_tail p times st)) = [] -> x <= st_height st.
-Proof.
-  intros Hwf H64 Hh TC Hx. unfold tail_calc in TC. unfold subjective_tail. rewrite Hh. rewrite TC.
-  destruct (N.eqb_spec x 0); [lia|]. rewrite Bool.andb_false_r.
-  destruct ((x <=? st_height st) && st_has st x) eqn:C1; [lia|].
-  unfold fetch_tail. assert (Ic : in_chain times x = true) by (apply in_chain_spec; lia). rewrite Ic.
-  destruct (target_step_full st (net_head times) x [x] Hwf Hx H64) as (_ & _ & D & _).
-  rewrite D. discriminate.
-Qed.
-
 Lemma start_removed p times now st h :
   let n := net_head times in
   wf st n -> n + 2 < two64 -> 1 <= n -> p_hash p = HNone -> p_from p = 0 ->
   st_has st h = true -> st_has (o_store (fst (start_run p times now st))) h = false ->
   exists init st1 x, start_call p times now st = inr (init, st1) /\ wf st1 n /\
     s_tail st1 = s_tail st /\ s_tail st <> 0 /\ s_head st <= s_head st1 /\
-    tail_calc p times st1 = TVal x /\ s_tail st <= h < x /\ x <= n /\ x <= s_head st1 + 1.
+    tail_calc p times st1 = TVal x /\ s_tail st <= h < x /\ x <= n.
 Proof.
   intros n Hwf H64 Hn Hh Hf Hin Hout.
   unfold start_run in *.
@@ -868,32 +852,30 @@ Proof.
   assert (Hin1 : st_has st1 h = true) by (apply (st_has_wf st1 n h Hwf1); lia).
   assert (E1 : st_empty st1 = false) by (unfold st_empty; lia).
   destruct (tail_calc_window p times st1 Hwf1 H64 Hn Hf) as (x & TC & Hx & Hge).
-  destruct (subjective_tail_window_x p times st1 x Hwf1 H64 Hh TC Hx) as (_ & _ & _ & BD).
+  specialize (Hge ltac:(lia)).
   pose proof (subjective_tail_spec p times st1 Hwf1 H64 Hv) as R. fold n in R.
   pose proof (subjective_tail_window_tail p times st1 x Hwf1 H64 Hh TC) as WT.
   set (r := subjective_tail p times st1) in *. clearbody r.
   exists init, st1, x. split; [reflexivity|]. split; [exact Hwf1|]. split; [exact Ht1|]. split; [exact Hne|].
   split; [exact Hhd|]. split; [exact TC|].
-  destruct R as [|req w' Hw'|req st' W1 W2 W3 W4|req x' W1 W2 W3];
-    cbn [fst snd o_out o_req o_store] in *.
+  destruct R as [|req w' Hw'|req st' W1 W2 W3 W4]; cbn [fst snd o_out o_req o_store] in *.
   - congruence.
   - congruence.
-  - specialize (WT eq_refl). specialize (BD eq_refl ltac:(lia)).
-    assert (Hfin : exists st2, wf st2 n /\ s_tail st2 = x /\ s_head st1 <= s_head st2 /\ st_has st2 h = false).
+  - specialize (WT eq_refl).
+    assert (Hfin : exists st2, wf st2 n /\ s_tail st2 = x /\ st_has st2 h = false /\ s_head st' <= s_head st2).
     { destruct init.
       - destruct (wf_adopt times st' W1 W2) as [A1 A2]. exists (adopt_head times st').
         pose proof (adopt_head_head times st' W1 W2).
-        split; [exact A1|]. split; [lia|]. split; [lia|exact Hout].
+        split; [exact A1|]. split; [lia|]. split; [exact Hout|lia].
       - destruct (wf_sync_up st' n n W1 W2 ltac:(lia)) as [A1 A2]. exists (st_sync_up st' n).
         pose proof (sync_up_head st' n n W1 W2).
-        split; [exact A1|]. split; [lia|]. split; [lia|exact Hout]. }
-    destruct Hfin as (st2 & F1 & F2 & F3 & F4).
+        split; [exact A1|]. split; [lia|]. split; [exact Hout|lia]. }
+    destruct Hfin as (st2 & F1 & F2 & F4 & F5).
     assert (Hlt : h < x).
     { destruct (N.ltb_spec h x); [assumption|exfalso].
       assert (st_has st2 h = true); [|congruence].
       apply (st_has_wf st2 n h F1). lia. }
-    split; [lia|]. split; [lia|exact BD].
-  - exfalso. unfold st_has in Hout. cbn in Hout. unfold st_empty in Hout. cbn in Hout. lia.
+    split; [lia|lia].
 Qed.
 
 (** C16 window clause at the level of Start, FULL strength (and more than the
@@ -912,7 +894,7 @@ Theorem start_keeps_window p times now st :
 Proof.
   intros n t Hwf H64 Hn Hh Hf Sw Hmono h Hin Hout. subst t.
   destruct (start_removed p times now st h Hwf H64 Hn Hh Hf Hin Hout)
-    as (init & st1 & x & SC & Hwf1 & Ht1 & Hne & Hhd & TC & Hr & Hxn & Hq).
+    as (init & st1 & x & SC & Hwf1 & Ht1 & Hne & Hhd & TC & Hr & Hxn).
   fold n in Hwf1.
   assert (E1 : st_empty st1 = false) by (unfold st_empty; lia).
   destruct (wf_nonempty st1 n Hwf1 E1) as (_ & Htr & Hhr).
@@ -928,69 +910,13 @@ Proof.
   rewrite <- HE.
   apply (find_tail_keeps_window (tmf times) (p_window p) (p_block p) (s_tail st1) v n vn (s_head st1)
            (fun h0 => if st_has st1 h0 then tm times h0 else None) x); try assumption; try lia.
+  - unfold two64 in *. lia.
   - intros h0 Hh0. apply Hmono. lia.
   - intros h0 Hh0. cbn beta. assert (Hs : st_has st1 h0 = true) by (apply (st_has_wf st1 n h0 Hwf1); lia). rewrite Hs.
     destruct (tm_some times h0 ltac:(fold n; lia)) as [v0 Hv0]. rewrite Hv0.
     unfold tmf. rewrite (tm0_some _ _ _ Hv0). reflexivity.
 Qed.
 
-(** "never wedges", PARTIAL: under the property's hypothesis, "far" case not
-    taken, the store's head younger than the window: the new tail is in the
-    store and Start cannot fail with WDelete *)
-Theorem start_no_wedge_partial p times now st :
-  let n := net_head times in
-  let t := tmf times in
-  wf st n -> n + 2 < two64 -> 1 <= n ->
-  p_hash p = HNone -> p_from p = 0 ->
-  (0 < p_block p)%Z -> (0 < p_window p)%Z -> sane (p_window p) ->
-  sane (t (s_tail st)) -> sane (t n) ->
-  (forall h, s_tail st <= h < n -> (0 <= t (h + 1)%N - t h <= p_block p)%Z) ->
-  s_tail st <> 0 -> (t n - p_window p - t (s_tail st) < p_window p)%Z ->
-  (t n - p_window p < t (s_head st))%Z ->
-  snd (start_run p times now st) <> WDelete.
-Proof.
-  intros n t Hwf H64 Hn Hh Hf Hb Hw Sw So Sn Hsp Hne Hnf Hyoung. subst t. unfold start_run.
-  destruct (start_call p times now st) as [w0|[init st1]] eqn:SC.
-  { destruct (start_call_inl _ _ _ _ _ SC) as [Hw0|[Hw0|Hw0]]; subst w0; cbn; discriminate. }
-  destruct (start_call_wf p times now st init st1 Hwf H64 SC) as (Hwf1 & Ht1 & Hst1). fold n in Hwf1.
-  assert (E1 : st_empty st1 = false) by (unfold st_empty; lia).
-  destruct (wf_nonempty st1 n Hwf1 E1) as (_ & Htr & Hhr).
-  destruct (tail_calc_window p times st1 Hwf1 H64 Hn Hf) as (x & TC & Hx & Hge).
-  destruct (subjective_tail_window_x p times st1 x Hwf1 H64 Hh TC Hx) as (A & C & D & F).
-  assert (Hxs : x <= s_head st1).
-  { pose proof TC as TC'. unfold tail_calc in TC'. rewrite E1 in TC'. fold n in TC'.
-    destruct (tm_some times (s_tail st1) ltac:(fold n; lia)) as [v Hv1]. rewrite Hv1 in TC'.
-    destruct (tm_some times n ltac:(fold n; lia)) as [vn Hvn]. rewrite Hvn in TC'.
-    unfold tail_height in TC'. rewrite Hf in TC'. cbn [N.ltb N.compare] in TC'.
-    assert (Hsh : st_height st1 = s_head st1) by (unfold st_height; rewrite E1; reflexivity).
-    rewrite Hsh in TC'.
-    assert (v = tmf times (s_tail st1)) by (unfold tmf; rewrite (tm0_some _ _ _ Hv1); reflexivity).
-    assert (vn = tmf times n) by (unfold tmf; rewrite (tm0_some _ _ _ Hvn); reflexivity).
-    subst v vn.
-    assert (Hmono : (tmf times (s_head st) <= tmf times (s_head st1))%Z).
-    { destruct Hst1 as [->|(_ & Hn1 & Hs1)]; [lia|].
-      assert (E : st_empty st = false) by (unfold st_empty; lia).
-      destruct (wf_nonempty st n Hwf E) as (_ & Htr0 & Hhr0).
-      rewrite Hs1. fold n in Hn1.
-      pose proof (Hsp (s_head st) ltac:(lia)) as HH. rewrite <- Hn1 in HH. fold n. lia. }
-    assert (A1 : sane (tmf times (s_tail st1))) by (rewrite Ht1; assumption).
-    assert (A2 : s_tail st1 <= s_head st1 <= n) by lia.
-    assert (A3 : n < two64) by (unfold two64 in *; lia).
-    assert (A4 : forall h0, s_tail st1 <= h0 < n -> (0 <= tmf times (h0 + 1)%N - tmf times h0 <= p_block p)%Z)
-      by (intros h0 Hh0; apply Hsp; lia).
-    assert (A5 : forall h0, s_tail st1 <= h0 <= s_head st1 ->
-                 (fun h1 => if st_has st1 h1 then tm times h1 else None) h0 = Some (tmf times h0)).
-    { intros h0 Hh0. cbn beta. assert (Hs : st_has st1 h0 = true) by (apply (st_has_wf st1 n h0 Hwf1); lia). rewrite Hs.
-      destruct (tm_some times h0 ltac:(fold n; lia)) as [v0 Hv0]. rewrite Hv0.
-      unfold tmf. rewrite (tm0_some _ _ _ Hv0). reflexivity. }
-    assert (A6 : (tmf times n - p_window p - tmf times (s_tail st1) < p_window p)%Z) by (rewrite Ht1; exact Hnf).
-    assert (A7 : (tmf times n - p_window p < tmf times (s_head st1))%Z) by lia.
-    destruct (find_tail_spaced_le_store (tmf times) (p_window p) (p_block p) (s_tail st1) n (s_head st1)
-                (fun h0 => if st_has st1 h0 then tm times h0 else None) Hb Hw Sw A1 Sn A2 A3 A4 A5 A6 A7) as [x' (Hx' & Hr')].
-    rewrite TC' in Hx'. inversion Hx'; subst x'. lia. }
-  destruct (subjective_tail p times st1) as [o w]. cbn [fst snd] in *.
-  destruct (o_out o); cbn [snd]; intros Hd; specialize (C Hd); lia.
-Qed.
 (** * Witnesses of the regions where the property fails (run on the real code by harness/c16) *)
 Fixpoint mk_times (t : Z) (gaps : list Z) : list Z :=
   match gaps with [] => [t] | g :: r => t :: mk_times (t + g)%Z r end.
@@ -1141,8 +1067,9 @@ Qed.
 Lemma move_tail_why st old x : let '(_, _, w) := move_tail st old x in w = WDone \/ w = WDelete.
 Proof.
   unfold move_tail. destruct old as [t|]; [|auto].
-  destruct (t <? x); [destruct (st_delete_range st t x); auto|].
-  destruct (x <? t); auto.
+  destruct (t <? x).
+  - destruct (_ <? x); [destruct (st_delete_range st t _); auto|destruct (st_delete_range st t x); auto].
+  - destruct (x <? t); auto.
 Qed.
 
 Lemma moved_why req r : (let '(_, _, w) := r in w = WDone \/ w = WDelete) ->
